@@ -83,6 +83,7 @@ def simulate(program, deselected=None):
     ref.cleanup_expect = []     # cleanup ids in expected execution order
     ref.cleanup_pos = []        # (cleanup id, number of hook calls before it)
     ref.open_containers = set()
+    ref.skipped_by_hook = set()     # (kind, name) excluded at run time by their own before-hook
     ref.untouched = []      # instance names never reached (stop / abort)
     ref.suppressed = set()  # instance names whose body was suppressed by a before-hook failure
     state = {"aborted": False, "stopped": False}
@@ -92,6 +93,7 @@ def simulate(program, deselected=None):
             self.kind, self.name = kind, name
             self.cleanups = []      # (id, raises)
             self.hook_failed = False
+            self.skip_requested = False     # a before-hook called <element>.skip()
 
     layers = [Layer("testrun", "")]
 
@@ -104,6 +106,16 @@ def simulate(program, deselected=None):
         ref.hook_owner.append((owner.kind, owner.name) if owner is not None else ("testrun", ""))
         for raises in hook_cleanups.get(k, ()):
             layers[-1].cleanups.append(("h%d" % k, raises))
+        if faults.get(k) == "skip":
+            # the hook excludes its element at run time (documented: feature.skip() / scenario.skip()
+            # in a before-hook); in any other hook this fault kind does nothing
+            if owner is not None and name in ("before_feature", "before_rule", "before_scenario"):
+                owner.skip_requested = True
+            return False
+        if faults.get(k) == "abort":
+            state["aborted"] = True
+            ref.reasons.append("hook %s#%d aborted the run" % (name, k))
+            return False
         if k in faults:
             ref.reasons.append("hook %s#%d raised" % (name, k))
             if name in ("before_all", "after_all"):
@@ -136,6 +148,10 @@ def simulate(program, deselected=None):
 
     def is_selected(feature, inst):
         if inst["name"] in deselected:
+            return False
+        if ("feature", feature["name"]) in ref.skipped_by_hook:
+            return False
+        if inst["rule"] is not None and ("rule", inst["rule"]["name"]) in ref.skipped_by_hook:
             return False
         return tagref.evaluate(ast, effective_tags(feature, inst))
 
@@ -171,7 +187,15 @@ def simulate(program, deselected=None):
         hook("before_scenario", name, layer)
         sts = []
         proc = []
-        if layer.hook_failed or state["aborted"]:
+        if layer.skip_requested and not layer.hook_failed:
+            # excluded by its own before_scenario hook: steps skipped, nothing processed,
+            # the after-hooks still run; not a failure
+            sts = ["skipped"] * len(steps)
+            ref.selected.remove(name)
+            ref.executed.discard(name)
+            ref.not_selected.append(name)
+            ref.skipped_by_hook.add(("scenario", name))
+        elif layer.hook_failed or state["aborted"]:
             # body suppressed
             sts = ["untested"] * len(steps)
             ref.suppressed.add(name)
@@ -315,6 +339,8 @@ def simulate(program, deselected=None):
         layer = Layer(kind, name)
         layers.append(layer)
         entered, is_open = container_entered(feature, rule)
+        if rule is not None and ("feature", feature["name"]) in ref.skipped_by_hook:
+            entered, is_open = False, False
         ref.entered[(kind, name)] = entered
         if is_open and entered:
             ref.open_containers.add((kind, name))
@@ -325,6 +351,9 @@ def simulate(program, deselected=None):
             for t in elem.get("tags") or []:
                 hook("before_tag", t, layer, is_open)
             hook("before_%s" % kind, name, layer, is_open)
+        if layer.skip_requested and not layer.hook_failed:
+            ref.skipped_by_hook.add((kind, name))
+            ref.entered[(kind, name)] = False       # no formatter events unless skipped ones are shown
         if layer.hook_failed or state["aborted"]:
             mark_untouched(feature, items, rule)
             if layer.hook_failed:
